@@ -304,6 +304,57 @@ impl Check for C16 {
         let pts9: Vec<(f32, f32)> = vec![(0.7, 0.9), (5.3, 1.1), (9.9, 0.4), (1.2, 5.5), (5.0, 5.1), (10.4, 6.2), (0.3, 10.1), (6.1, 9.7), (9.2, 10.6)];
         let pts4: Vec<(f32, f32)> = vec![(0.7, 0.9), (9.9, 1.4), (1.2, 9.5), (10.4, 10.2)];
         let ctrl: Vec<(f32, f32)> = vec![(5.6, -3.1), (13.7, 5.2), (-2.2, 6.3), (4.9, 5.0)];
+        {
+            let a4 = alphabet(&pts4, &ctrl[..3]);
+            let ml: Vec<POp> = a4.iter().copied().filter(|o| matches!(o, POp::M(..) | POp::L(..))).collect();
+            let curves: Vec<POp> = a4.iter().copied().filter(|o| matches!(o, POp::Q(..) | POp::C(..))).collect();
+            run.bound("curve after Close in any subpath", format!("strings (M|L)^1..3 Z (Q|C) [and (M|L)^1..2 Z (M|L) Z (Q|C)] over {} M/L ops and {} curves x {} tolerances", ml.len(), curves.len(), tols.len()));
+            run.par(ml.len(), |i0, l| {
+                let mut prefixes: Vec<Vec<POp>> = vec![vec![ml[i0]]];
+                for a in &ml {
+                    prefixes.push(vec![ml[i0], *a]);
+                    for b in &ml {
+                        prefixes.push(vec![ml[i0], *a, *b]);
+                    }
+                }
+                for pre in &prefixes {
+                    let mut variants: Vec<Vec<POp>> = vec![{
+                        let mut v = pre.clone();
+                        v.push(POp::Z);
+                        v
+                    }];
+                    if pre.len() <= 2 {
+                        for a in &ml {
+                            let mut v = pre.clone();
+                            v.push(POp::Z);
+                            v.push(*a);
+                            v.push(POp::Z);
+                            variants.push(v);
+                        }
+                    }
+                    for var in variants {
+                        for c in &curves {
+                            let mut ops = var.clone();
+                            ops.push(*c);
+                            for (ti, &tol) in tols.iter().enumerate() {
+                                let p = PathSpec { evenodd: false, ops: ops.clone() };
+                                l.states += 1;
+                                l.transitions += 1;
+                                l.traces += 1;
+                                l.evals += 1;
+                                match eval(&p, tol, ti == 0) {
+                                    Ok((h, _, _)) => {
+                                        l.outcome(h);
+                                        l.nontrivial += 1;
+                                    }
+                                    Err(v) => run.report(90_000 + i0, v),
+                                }
+                            }
+                        }
+                    }
+                }
+            });
+        }
         if q {
             strings(run, "9-point alphabet depth 2", &alphabet(&pts9, &ctrl), 2, &tols);
             strings(run, "4-point alphabet depth 3", &alphabet(&pts4, &ctrl[..3]), 3, &tols);
